@@ -777,6 +777,12 @@ func newRunner(head []string) runner {
 	if len(head) >= 3 && head[0] == "case" && strings.HasPrefix(head[2], "mem") {
 		return newMemRun()
 	}
+	if len(head) >= 3 && head[0] == "case" && strings.HasPrefix(head[2], "misc") {
+		return newMiscRun()
+	}
+	if len(head) >= 3 && head[0] == "case" && strings.HasPrefix(head[2], "idxc") {
+		return newIdxcRun()
+	}
 	if len(head) < 4 || head[0] != "case" {
 		return nil
 	}
